@@ -534,6 +534,23 @@ static void run(const vf::Args &args, Report &rep)
         while (f1 < PP && f1 > f0) { D.push_back(f1); D.push_back(PP - f1); uint64_t t = f0 + f1; if (t < f1) break; f0 = f1; f1 = t; }
     }
     for (uint64_t k = 1; k < 300; k++) { D.push_back(PP / k); D.push_back(PP / k + 1); if (PP / k > 1) D.push_back(PP / k - 1); }
+    // operands whose Euclid remainder sequence against p is long (p/a close to the golden ratio: all quotients 1 for many steps);
+    // found by counting division steps in a neighbourhood of p/phi and of p/phi^2, the longest 400 are kept (typically 65..80 steps)
+    {
+        auto steps = [](uint64_t a) { uint64_t r0 = PP, r1 = a; int n = 0; while (r1) { uint64_t t = r0 % r1; r0 = r1; r1 = t; n++; } return n; };
+        const long double phi = 1.6180339887498948482L;
+        std::vector<std::pair<int, uint64_t>> cand;
+        for (uint64_t base : {(uint64_t)((long double)PP / phi), (uint64_t)((long double)PP / (phi * phi))})
+            for (int64_t k = -60000; k <= 60000; k++)
+            {
+                uint64_t a = base + (uint64_t)(k * 4099); // spread over +-2^28
+                cand.push_back({steps(a), a});
+            }
+        std::sort(cand.begin(), cand.end(), [](const std::pair<int, uint64_t> &x, const std::pair<int, uint64_t> &y) { return x.first > y.first; });
+        for (size_t i = 0; i < 400 && i < cand.size(); i++) { D.push_back(cand[i].second); D.push_back(PP - cand[i].second); }
+        if (args.shard == 0) rep.cls("inv:longest_euclid_chain_steps_in_directed_family", (uint64_t)cand[0].first);
+        if (args.shard == 0) rep.cls("inv:long_euclid_chain_operands(>=65 steps)", (uint64_t)std::count_if(cand.begin(), cand.begin() + 400, [](const std::pair<int, uint64_t> &x) { return x.first >= 65; }));
+    }
     for (int k = 0; k < 64; k++) { D.push_back(1ULL << k); D.push_back((1ULL << k) + 1); if (k) D.push_back((1ULL << k) - 1); }
     // non-canonical aliases of small values
     for (uint64_t k = 1; k < 64; k++) D.push_back(PP + k);
